@@ -12,7 +12,8 @@
 //!            remainder goes into a last chunk); `0` = a single IDAT chunk
 //!    Z       `s<blk>` stored deflate blocks of at most <blk> bytes | `f` flate2 default level
 //!    ANC     ancillary chunks to add: subset of `g` (gAMA after IHDR), `k` (bKGD after PLTE),
-//!            `t` (tEXt before IEND), `z` (bytes after IEND); `-` = none
+//!            `t` (tEXt before IEND), `z` (bytes after IEND), `e` (a zero-length IDAT chunk before
+//!            and after the IDAT chunks); `-` = none
 //!    MUT     `-` = PNG is the encoding of the description; otherwise `<label>:<ext>`: a label of
 //!            the mutation applied to the file bytes (the description is of the un-mutated
 //!            image) and what flate2 makes of the file's IDAT payload (`E` error, else hex)
@@ -243,6 +244,9 @@ fn encode_png(d: &Desc) -> Vec<u8> {
     } else {
         zlib_stored(&raw, d.z[1..].parse().unwrap_or(65535))
     };
+    if d.anc.contains('e') {
+        chunk(&mut out, b"IDAT", &[]); // zero-length IDAT chunks are legal
+    }
     let mut pos = 0;
     let mut wrote = false;
     for &s in &d.splits {
@@ -256,6 +260,9 @@ fn encode_png(d: &Desc) -> Vec<u8> {
     }
     if pos < z.len() || !wrote {
         chunk(&mut out, b"IDAT", &z[pos..]);
+    }
+    if d.anc.contains('e') {
+        chunk(&mut out, b"IDAT", &[]);
     }
     if d.anc.contains('t') {
         chunk(&mut out, b"tEXt", b"Comment\0c24");
@@ -505,7 +512,24 @@ fn gen_rows(rng: &mut Rng, w: usize, h: usize, depth: u8, ct: u8, npal: usize, k
             };
             // colour-key pixels appear often when a tRNS key is given (ct 0/2)
             if let Some(k) = key {
-                if (ct == 0 || ct == 2) && rng.chance(1, 3) {
+                if (ct == 0 || ct == 2) && rng.chance(1, 6) {
+                    // near miss: the key with one bit of one sample flipped (at depth 16 in the
+                    // low or the high byte) must stay opaque
+                    let mut nk = k.clone();
+                    let i = rng.below(nk.len() as u64 / 2) as usize * 2;
+                    if depth == 16 {
+                        nk[i + rng.below(2) as usize] ^= 1 << rng.below(8);
+                    } else {
+                        nk[i + 1] ^= 1 << rng.below(depth.min(8) as u64);
+                    }
+                    px = if depth == 16 {
+                        nk
+                    } else if depth == 8 {
+                        nk.chunks(2).map(|c| c[1]).collect()
+                    } else {
+                        vec![nk[1] << (8 - depth)]
+                    };
+                } else if (ct == 0 || ct == 2) && rng.chance(1, 3) {
                     px = if depth == 16 {
                         k.clone()
                     } else if depth == 8 {
@@ -597,7 +621,7 @@ fn gen_desc(rng: &mut Rng, ct: u8, depth: u8, w: usize, h: usize, il: u8, fstyle
         2 => d.z = format!("s{}", 1 + rng.below(300)),
         _ => {}
     }
-    for (c, den) in [('g', 4), ('k', 8), ('t', 4), ('z', 10)] {
+    for (c, den) in [('g', 4), ('k', 8), ('t', 4), ('z', 10), ('e', 8)] {
         if rng.chance(1, den) {
             d.anc.push(c);
         }
@@ -917,12 +941,51 @@ fn gen(rng: &mut Rng, tier: Tier) -> Vec<Case> {
             push_png(&mut cases, rng, &d);
         }
     }
+    // 2b. packed layouts: widths around the byte boundaries of 1/2/4-bit samples (grey, grey with
+    // a tRNS key, palette with and without tRNS), Paeth and mixed filters; one-pixel-wide images
+    // (every filter then only sees the row above); 16-bit alpha layouts with filter mixes; a full
+    // 256-entry palette
+    for &(depth, ws) in &[
+        (1u8, &[1usize, 2, 7, 8, 9, 15, 16, 17][..]),
+        (2, &[1, 2, 3, 4, 5, 8, 9][..]),
+        (4, &[1, 2, 3, 4, 5][..]),
+    ] {
+        for &ct in &[0u8, 3] {
+            for &w in ws {
+                let h = 1 + rng.below(4) as usize;
+                let fstyle = *rng.pick(&[4u64, 6, 6]);
+                let d = gen_desc(rng, ct, depth, w, h, 0, fstyle);
+                push_png(&mut cases, rng, &d);
+            }
+        }
+    }
+    for &(ct, depth) in &[(4u8, 16u8), (6, 16), (4, 8), (6, 8), (2, 16), (0, 16)] {
+        for &w in &[1usize, 2, 3] {
+            for &fstyle in &[5u64, 6, 4, 3] {
+                let h = 2 + rng.below(4) as usize;
+                let d = gen_desc(rng, ct, depth, w, h, 0, fstyle);
+                push_png(&mut cases, rng, &d);
+            }
+        }
+    }
+    for _ in 0..3 {
+        // all 256 palette entries, tRNS shorter than the palette; indices cover 0 and 255
+        let (w, h) = (16usize, 1 + rng.below(3) as usize);
+        let mut d = gen_desc(rng, 3, 8, w, h, 0, 6);
+        d.plte = Some(rng.bytes(768));
+        let nt = 1 + rng.below(255) as usize;
+        d.trns = Some(rng.bytes(nt));
+        d.rows = rng.bytes(w * h);
+        d.rows[0] = 255;
+        d.rows[1] = 0;
+        push_png(&mut cases, rng, &d);
+    }
     // 3. random valid
     let n_rand = if tier == Tier::Quick { 500 } else { 6000 };
     for _ in 0..n_rand {
         let (ct, depth) = *rng.pick(&COMBOS);
-        // bias to the accepted layouts: 8-bit non-interlaced
-        let (ct, depth) = if rng.chance(1, 2) { (*rng.pick(&[0u8, 2, 4, 6]), 8) } else { (ct, depth) };
+        // a quarter of the cases are the plain 8-bit layouts
+        let (ct, depth) = if rng.chance(1, 4) { (*rng.pick(&[0u8, 2, 4, 6]), 8) } else { (ct, depth) };
         let il = if rng.chance(1, 6) { 1 } else { 0 };
         let w = if rng.chance(1, 10) { 1 + rng.below(70) as usize } else { 1 + rng.below(20) as usize };
         let hm = if rng.chance(1, 10) { 40 } else { 12 };
